@@ -740,8 +740,11 @@ type c09Env struct {
 func c09NewEnv(t *testing.T) *c09Env {
 	// bbolt's initial mmap size is a documented tunable; the 100 GB default costs
 	// most of the run time when thousands of short-lived databases are opened.
+	// 64 MiB is far above what any database of this harness reaches, so bbolt
+	// never has to remap (a remap waits for open read transactions, which the
+	// single-goroutine leader workload keeps open on purpose).
 	if os.Getenv("BAO_RAFT_INITIAL_MMAP_SIZE") == "" {
-		t.Setenv("BAO_RAFT_INITIAL_MMAP_SIZE", "0")
+		t.Setenv("BAO_RAFT_INITIAL_MMAP_SIZE", "67108864")
 	}
 	root := os.TempDir()
 	if st, err := os.Stat("/dev/shm"); err == nil && st.IsDir() {
